@@ -289,11 +289,13 @@ Definition draw_screen (c : cfg) (s : scr) (maxcol maxrow : Z) (rows : list crow
   let partial := match s_ru s with Some _ => true | None => false end in
   let out0 := [THide] ++ attr_to_escape c 0 ++ (if partial then [] else [THome]) ++ set_cursor_home partial (s_cy s) in
   bind (draw_rows c maxcol maxrow (s_buf s) 0 rows (mkAcc out0 [] 0 (mkRs 0 true 0) (s_ru s))) (fun acc =>
+  (* do not leave the IBMPC mapping selected for the next frame *)
+  let t_ibm := if negb (g_utf8 c) && (r_lcs (d_rs acc) =? 2) then [TIbmOff] else [] in
   let '(t_cur, cy') := match cursor with
                        | Some (x, y) => (set_cursor_position partial (d_cy acc) x y ++ [TShow], y)
-                       | None => ([], s_cy s)
+                       | None => ([], d_cy acc)      (* the output cursor stays on the last row drawn *)
                        end in
-  Ok (t_g1 ++ d_out acc ++ t_cur, mkScr (d_sb acc) (d_ru acc) cy' false true)).
+  Ok (t_g1 ++ d_out acc ++ t_ibm ++ t_cur, mkScr (d_sb acc) (d_ru acc) cy' false true)).
 
 (* ---------- wire format ---------- *)
 Definition dec_bool (z : Z) : bool := negb (z =? 0).
